@@ -50,10 +50,11 @@ def run(ctx):
     rnd = random.Random(ctx.seed * 61 + 17)
     insts = pick_instances(ctx)
     # ---- M2 -------------------------------------------------------------------------------------------------------
+    targeted = []
     for inst in insts:
         k = 3
         cf = os.path.join(ctx.scratch("canon"), inst + ".ndjson")
-        ctx.run_driver("wrapper", {"part": "canonset", "instance": inst, "k": k, "ks": [cf]}, tag="canon-" + inst)
+        cr = ctx.run_driver("wrapper", {"part": "canonset", "instance": inst, "k": k, "ks": [cf]}, tag="canon-" + inst)
         name, files = leafsets_files(ctx, inst, k, cf)
         res = ctx.tlc(name, name + ".cfg", workers=1, extra_files=files, name="ls-" + inst)
         if res["ok"]:
@@ -61,6 +62,15 @@ def run(ctx):
         else:
             ctx.leads.append("LeafSets: the canonically checked leaves of %s differ from the prescribed set" % inst)
             ctx.extra["leafsets_tail_" + inst] = res["output"][-800:]
+            # the trace disagreement is a lead; the real code decides: every Goldilocks-valued proof leaf that did not receive a
+            # complete canonical check is presented as value + k*p (seeded sample when there are many)
+            checked = set(json.loads(x)["leaf"] for x in open(cf) if x.strip())
+            missing = [p for p in (cr.get("info") or {}).get("gl_proof_leaves", []) if p not in checked]
+            rnd.shuffle(missing)
+            missing = sorted(missing[:48 if thorough else 16])
+            ctx.extra["unchecked_leaves_" + inst] = missing[:16]
+            for i in range(0, len(missing), 4):
+                targeted.append({"part": "noncanon", "instance": inst, "k": k, "ks": KS, "paths": missing[i:i + 4], "shard": 900 + i, "nshards": 0, "stride": 1})
             continue
         if inst == insts[0]:
             recs = [json.loads(x) for x in open(cf)]
@@ -73,7 +83,7 @@ def run(ctx):
                 raise common.MachineryError("LeafSets self-test: a trace with one leaf removed was accepted")
             ctx.extra["trace_negative_selftests"] = 1
     # ---- M1 -------------------------------------------------------------------------------------------------------
-    jobs = []
+    jobs = list(targeted)
     for inst in insts:
         if thorough:
             nsh = common.NCPU
